@@ -83,3 +83,127 @@ Example C18_former_witnesses :
   f_run h_threshold = f_spec h_threshold /\ f_run h_shacl = f_spec h_shacl /\
   f_run h_shared = f_spec h_shared /\ f_run h_examples = f_spec h_examples.
 Proof. repeat split; vm_compute; reflexivity. Qed.
+
+(** ** (c) The API machine over the CONCRETE pipeline (Proofs/ApiPipeline.v).
+
+    The abstract stages of (b) are instantiated with the validated pipeline model:
+    tracker := [Tracker.track], profiler := [Profiler.profile], shexing :=
+    [Shexing.shex BAlg], ShExC lines := [SerialShexc.render_lines], constructor
+    dictionary = [Run.full_ns]; the reader pass leaves the dictionary alone (line
+    readers), examples_mode is off.  The SHACL text, the profile text, the random
+    oracle with its fuel and the threshold test stay universally quantified.  An
+    exception of a stage is an error value delivered as a reserved one-line text
+    that no rendering can be ([C18_result_read_back]).
+
+    [cfg_of a d] = the run configuration of constructor arguments [a] with the
+    VALUE [d] of the dictionary argument; [shapers_of h] = the (arguments,
+    dictionary value) of the Shapers the history creates, in order. *)
+From Shexer Require Import Lib.Bin64 Spec.Rdf Model.Tracker Model.Tokens Model.Freq Model.FreqInst
+     Model.Shexing Model.SerialShexc Model.Run Proofs.ShexBasics Proofs.ApiPipeline Proofs.RunWitness.
+
+(** For every well-formed history -- any length, any number of Shapers, shared
+    dictionaries, SHACL and profile calls anywhere in between -- the text returned
+    by / the file written by EVERY [shex_graph(ShExC, sink k, threshold t)] call
+    is [Run.run_shexc BAlg] of the configuration of ITS Shaper's constructor
+    arguments, ITS threshold and the graph: the history-free pipeline model is
+    what every call computes (an error of the pipeline is the same error). *)
+Theorem C18_shex_calls_are_run_shexc :
+  forall (shacl_text : cargs -> nsd -> cshapes -> str) (profile_text : cprof -> str)
+         (rand : nat -> str) (fuel : nat) (thr_eqb : F BAlg -> F BAlg -> bool),
+    (forall x y, thr_eqb x y = true -> x = y) ->
+    forall h : list (op cargs (F BAlg)),
+      C18_dom cargs (F BAlg) h = true ->
+      forall n i k t, nth_error h n = Some (Shex i ShExC k t) ->
+      exists a d, nth_error (shapers_of BAlg h) i = Some (a, d) /\
+                  nth_error (run_conc BAlg shacl_text profile_text rand fuel thr_eqb h) n
+                  = Some (deliver k (run_shexc BAlg (cfg_of a d) t (ca_graph a))).
+Proof. exact (shex_calls_are_run_shexc BAlg). Qed.
+Print Assumptions C18_shex_calls_are_run_shexc.
+
+(** the outcome determines the [str + rerr] result of the pipeline model *)
+Theorem C18_result_read_back : forall c t g k,
+  result_of (deliver k (run_shexc BAlg c t g)) = Some (run_shexc BAlg c t g).
+Proof. exact (result_of_deliver BAlg). Qed.
+Print Assumptions C18_result_read_back.
+
+(** [run_shexc] is the composition of exactly the stage functions handed to the machine *)
+Theorem C18_run_shexc_is_the_stages : forall a d t,
+  run_shexc BAlg (cfg_of a d) t (ca_graph a) =
+  match full_ns (cfg_of a d) with
+  | None => inr RERandom
+  | Some d1 => map_res (@List.concat ascii)
+                 (cs_lines_res a d1 (cs_shex BAlg a d1 (cs_profile a d1 (cs_track a d1)) t))
+  end.
+Proof. exact (run_shexc_stages BAlg). Qed.
+Print Assumptions C18_run_shexc_is_the_stages.
+
+(** a repeated call -- same Shaper, same threshold, either channel, whatever happened in
+    between -- yields the same text *)
+Theorem C18_repeat_call_same_text :
+  forall (shacl_text : cargs -> nsd -> cshapes -> str) (profile_text : cprof -> str)
+         (rand : nat -> str) (fuel : nat) (thr_eqb : F BAlg -> F BAlg -> bool),
+    (forall x y, thr_eqb x y = true -> x = y) ->
+    forall h : list (op cargs (F BAlg)),
+      C18_dom cargs (F BAlg) h = true ->
+      forall n1 n2 i k1 k2 t,
+        nth_error h n1 = Some (Shex i ShExC k1 t) -> nth_error h n2 = Some (Shex i ShExC k2 t) ->
+        exists o1 o2,
+          nth_error (run_conc BAlg shacl_text profile_text rand fuel thr_eqb h) n1 = Some o1 /\
+          nth_error (run_conc BAlg shacl_text profile_text rand fuel thr_eqb h) n2 = Some o2 /\
+          outcome_text o1 = outcome_text o2 /\ result_of o1 = result_of o2.
+Proof. exact (repeat_call_same_text BAlg). Qed.
+Print Assumptions C18_repeat_call_same_text.
+
+(** the threshold of each call is honoured: two calls on one Shaper with thresholds [t1] and
+    [t2] return the two [run_shexc] texts of the same configuration and graph *)
+Theorem C18_threshold_honoured :
+  forall (shacl_text : cargs -> nsd -> cshapes -> str) (profile_text : cprof -> str)
+         (rand : nat -> str) (fuel : nat) (thr_eqb : F BAlg -> F BAlg -> bool),
+    (forall x y, thr_eqb x y = true -> x = y) ->
+    forall h : list (op cargs (F BAlg)),
+      C18_dom cargs (F BAlg) h = true ->
+      forall n1 n2 i k1 k2 t1 t2,
+        nth_error h n1 = Some (Shex i ShExC k1 t1) -> nth_error h n2 = Some (Shex i ShExC k2 t2) ->
+        exists a d, nth_error (shapers_of BAlg h) i = Some (a, d) /\
+          nth_error (run_conc BAlg shacl_text profile_text rand fuel thr_eqb h) n1
+          = Some (deliver k1 (run_shexc BAlg (cfg_of a d) t1 (ca_graph a))) /\
+          nth_error (run_conc BAlg shacl_text profile_text rand fuel thr_eqb h) n2
+          = Some (deliver k2 (run_shexc BAlg (cfg_of a d) t2 (ca_graph a))).
+Proof. exact (threshold_honoured BAlg). Qed.
+Print Assumptions C18_threshold_honoured.
+
+(** non-vacuity: a concrete history over the concrete pipeline (two Shapers sharing the
+    caller's dictionary, two thresholds, both channels, a SHACL call in between); the two
+    thresholds give two different texts *)
+Definition frac_eqb (x y : F BAlg) : bool := Z.eqb (fst x) (fst y) && Z.eqb (snd x) (snd y).
+Lemma frac_eqb_eq x y : frac_eqb x y = true -> x = y.
+Proof.
+  destruct x, y. unfold frac_eqb. cbn. intros H. apply andb_true_iff in H as [H1 H2].
+  apply Z.eqb_eq in H1, H2. now subst.
+Qed.
+
+Definition g18 : graph :=
+  [ty "a" "C"; ty "b" "C"; ty "c" "C"; lit "a" "q" "x"; lit "a" "r" "x"; lit "b" "r" "x"; lit "c" "r" "x"].
+Definition a18 : cargs := mkCargs base_rcfg g18.
+Definition thr1 : F BAlg := b_ratio 1 1.
+Definition h18 : list (op cargs (F BAlg)) :=
+  [New a18 (DNew dEx); Shex 0 ShExC SString thr0; Shex 0 ShExC SFile thr1; New a18 (DShared 0);
+   Shex 0 ShExC SFile thr0; Shex 1 ShExC SString thr1; Shex 0 SHACL SString thr0; Shex 0 ShExC SString thr0].
+
+Example C18_pipeline_inhabited :
+  C18_dom cargs (F BAlg) h18 = true /\
+  run_conc BAlg (fun _ _ _ => []) (fun _ => []) (fun _ => []) 0 frac_eqb h18 =
+  [ONew;
+   deliver SString (run_shexc BAlg (cfg_of a18 dEx) thr0 g18);
+   deliver SFile (run_shexc BAlg (cfg_of a18 dEx) thr1 g18);
+   ONew;
+   deliver SFile (run_shexc BAlg (cfg_of a18 dEx) thr0 g18);
+   deliver SString (run_shexc BAlg (cfg_of a18 dEx) thr1 g18);
+   OText [];
+   deliver SString (run_shexc BAlg (cfg_of a18 dEx) thr0 g18)] /\
+  (exists s0 s1, run_shexc BAlg (cfg_of a18 dEx) thr0 g18 = inl s0 /\
+                 run_shexc BAlg (cfg_of a18 dEx) thr1 g18 = inl s1 /\ s0 <> s1).
+Proof.
+  split; [vm_compute; reflexivity|]. split; [vm_compute; reflexivity|].
+  eexists _, _. split; [vm_compute; reflexivity|]. split; [vm_compute; reflexivity|]. discriminate.
+Qed.
